@@ -287,6 +287,30 @@ def gen_case(kind):
     return fn
 
 
+def periodic_case(ctx, k):
+    """Discontinuous/periodic topologies: the numbering follows the (identified) cell list."""
+    import skfem
+    from .c11 import periodic_mesh
+    rng = ctx.rng()
+    kind = ("line", "tri", "quad", "hex")[k % 4]
+    mesh = periodic_mesh(rng, kind)
+    recs = [r for r in EL.of_kind(kind) if r.mesh_req == "any" and not r.skeleton and r.family in ("h1", "hdiv", "hcurl")]
+    for rec in [recs[i] for i in rng.choice(len(recs), size=min(4, len(recs)), replace=False)]:
+        elem = rec.make()
+        basis = skfem.CellBasis(mesh, elem)
+        ok = check_dofs_structure(ctx, mesh, kind, mesh.dim(), elem, basis.dofs, rec,
+                                  {"gen": "periodic", "class": type(mesh).__name__})
+        if ok:
+            A = skfem.BilinearForm(generic_mass).assemble(basis)
+            ctx.check("matrix-shape", A.shape == (basis.N, basis.N), mech="matrix-shape:periodic", elem=rec.name)
+            ed = np.asarray(basis.dofs.element_dofs)
+            allowed = {(int(i), int(j)) for c in range(ed.shape[1]) for i in ed[:, c] for j in ed[:, c]}
+            A = A.tocoo()
+            extra = {(int(i), int(j)) for i, j, v in zip(A.row, A.col, A.data) if v != 0} - allowed
+            ctx.check("sparsity-inside-cooccurrence", not extra, mech="sparsity:periodic", elem=rec.name)
+        ctx.reached("periodic-topology")
+
+
 def registry_complete(ctx, k):
     missing = EL.discover()
     ctx.check("registry-covers-exports", not missing, mech="unregistered-element", missing=missing)
@@ -296,5 +320,6 @@ SUITE = True   # thorough tier also runs the repository suite with this oracle a
 FAMILIES = [Family("gen-" + kd, gen_case(kd), quick=q, thorough=th)
             for kd, q, th in (("line", 10, 160), ("tri", 28, 640), ("quad", 18, 480), ("tet", 14, 320),
                               ("hex", 12, 240), ("wedge", 4, 64))]
+FAMILIES.append(Family("periodic", periodic_case, 12, 240))
 FAMILIES.append(Family("registry", registry_complete, 1, 1))
-REQUIRED_REACH = ["rectangular-assembly"]
+REQUIRED_REACH = ["rectangular-assembly", "periodic-topology"]
